@@ -134,7 +134,12 @@ func VerifC08Pipeline() {
 		}
 	}
 	if len(named) > 0 {
-		in.Header.Set("Connection", strings.Join(named, ", "))
+		if len(named) > 1 && verifBool("connTwoLines") {
+			// several Connection header lines are as valid as one comma-separated line
+			in.Header["Connection"] = []string{named[0], strings.Join(named[1:], ", ")}
+		} else {
+			in.Header.Set("Connection", strings.Join(named, ", "))
+		}
 	}
 
 	out := vfReverseProxyOutbound(proxy.Director, in)
